@@ -56,7 +56,9 @@ var goField = map[string]string{
 
 var unsupported []string
 
-func unsup(format string, a ...interface{}) { unsupported = append(unsupported, fmt.Sprintf(format, a...)) }
+func unsup(format string, a ...interface{}) {
+	unsupported = append(unsupported, fmt.Sprintf(format, a...))
+}
 
 // field of an expression "s.<Field>"
 func fieldOf(e ast.Expr, recv string) (string, bool) {
@@ -255,9 +257,10 @@ func main() {
 	}
 	var w strings.Builder
 	w.WriteString("(* GENERATED by go/cmd/translate from the repository source - do not edit. *)\n")
-	w.WriteString("From Coq Require Import List ZArith Strings.Byte.\nFrom IGP Require Import Base.Str Model.Tree Model.DoV Model.Leaves Model.Flat Model.Visual.\nImport ListNotations.\nLocal Open Scope Z_scope.\n\n")
+	w.WriteString("From Coq Require Import List ZArith Strings.Byte.\nFrom IGP Require Import Base.Str Model.Tree Model.DoV Model.Leaves Model.Flat Model.Visual Model.Link Model.Tabular.\nImport ListNotations.\nLocal Open Scope Z_scope.\n\n")
 	genComplexity(&w)
 	genVisual(&w)
+	genTabular(&w)
 	sort.Strings(unsupported)
 	var us []string
 	for _, u := range unsupported {
